@@ -83,7 +83,7 @@ Proof.
   - (* OAdd *)
     assert (Hs : nf (if is_str a || is_str c
                      then s1 <- value_string a;; s2 <- value_string c;; Ok (VStr (s1 ++ s2))
-                     else float_op fl_add a c)).
+                     else float_op fl_add_r a c)).
     { destruct (is_str a || is_str c); [|apply nf_float_op].
       apply nf_bind; [apply nf_value_string|]. intros s1.
       apply nf_bind; [apply nf_value_string|]. intros s2. exact I. }
